@@ -15,7 +15,19 @@ VARIANTS = {
     },
     "repo-bin": {"kind": "repo-bin", "features": ""},
     "repo-bin-jit": {"kind": "repo-bin", "features": "jit"},
+    # the harness under the Miri interpreter (no fork, no translated code, no file mmap); aliasing models off, see DESIGN section 5
+    "miri": {"kind": "miri", "features": "verif", "toolchain": "nightly",
+             "env": {"MIRIFLAGS": "-Zmiri-disable-isolation -Zmiri-disable-stacked-borrows"}},
 }
+
+ASAN_ENV = {"ASAN_OPTIONS": "abort_on_error=1:detect_leaks=0:symbolize=0"}
+VALGRIND = ["valgrind", "-q", "--smc-check=all", "--error-exitcode=9", "--undef-value-errors=no"]
+
+
+def miri_phase(monitor, total, timeout=5000):
+    """16 workers under Miri, each one slice out of `total` slices of the monitor's quick workload"""
+    return {"variant": "miri", "monitor": monitor, "shards": 16, "nshards_total": total, "tiers": ("thorough",), "worker_tier": "quick",
+            "name": "%s@miri(16 of %d slices)" % (monitor, total), "timeout": timeout}
 
 REFCPU = "reference SM83 model /verif/harness/src/refmodel/cpu.rs (written from the public opcode tables, octal decode) is the oracle"
 
@@ -30,6 +42,12 @@ CHECKS = {
         "phases": [
             {"variant": "jit-dbg", "monitor": "c01", "shards": 16},
             {"variant": "jit-rel", "monitor": "c01", "shards": 16, "tiers": ("thorough",)},
+            # AddressSanitizer build: the compiled Rust around the translated code (cache bookkeeping, slices over the mmap'ed ROM, helpers)
+            {"variant": "jit-asan", "monitor": "c01", "shards": 16, "tiers": ("thorough",), "args": {"sample": 1}, "worker_tier": "quick",
+             "env": ASAN_ENV, "name": "c01@jit-asan(sample)"},
+            # valgrind memcheck re-translates the generated x86 and checks every load/store it makes
+            {"variant": "jit-dbg", "monitor": "c01", "shards": 16, "nshards_total": 400, "tiers": ("thorough",), "args": {"sample": 1, "sanitizer-exit": 9},
+             "worker_tier": "quick", "wrapper": VALGRIND, "name": "c01@valgrind-memcheck(16 of 400 slices)", "timeout": 3000},
         ],
         # 244 unprefixed instructions (the CB prefix byte itself is not one) + 256 CB-prefixed = 500 executable encodings
         "floors": {"quick": {"evaluations": 3_000_000, "encodings-executed-x16-flags": 500}, "thorough": {"evaluations": 20_000_000, "encodings-executed-x16-flags": 1000}},
@@ -97,6 +115,7 @@ CHECKS = {
             {"variant": "interp-dbg", "monitor": "c05", "shards": 16, "tiers": ("quick",)},
             {"variant": "interp-rel", "monitor": "c05", "shards": 16, "tiers": ("thorough",)},
             {"variant": "interp-dbg", "monitor": "c05", "shards": 16, "tiers": ("thorough",), "name": "c05@interp-dbg(quick workload, overflow checks on)", "thorough_args": {"tier": "quick"}},
+            miri_phase("c05", 30000),
         ],
         "floors": {"quick": {"evaluations": 50_000_000}, "thorough": {"evaluations": 4_000_000_000}},
         "exhaustive": {"quick": False, "thorough": True},
@@ -112,6 +131,7 @@ CHECKS = {
         "phases": [
             {"variant": "interp-dbg", "monitor": "c06", "shards": 16},
             {"variant": "interp-rel", "monitor": "c06", "shards": 16, "tiers": ("thorough",)},
+            miri_phase("c06", 4000),
         ],
         "floors": {"quick": {"evaluations": 2_000_000, "table-rows": 1000}, "thorough": {"evaluations": 8_000_000, "table-rows": 1000}},
         "exhaustive": {"quick": False, "thorough": False},
@@ -191,6 +211,8 @@ CHECKS = {
                 "distinct_nontrivial = distinct configurations exercised",
         "phases": [
             {"variant": "interp-dbg", "monitor": "c11", "shards": 16},
+            # same accesses under AddressSanitizer: an out-of-bounds index that stays inside the ROM mapping's slack would not fault
+            {"variant": "jit-asan", "monitor": "c11", "shards": 16, "tiers": ("thorough",), "worker_tier": "quick", "env": ASAN_ENV, "name": "c11@asan(quick workload)"},
         ],
         "floors": {"quick": {"evaluations": 100_000_000, "configurations": 120}, "thorough": {"evaluations": 1_000_000_000, "configurations": 504}},
         "exhaustive": {"quick": False, "thorough": False},
@@ -220,7 +242,7 @@ CHECKS = {
                 "distinct_nontrivial = distinct (TAC, phase chunk) units, TAC transition pairs and histories",
         "phases": [{"variant": "interp-dbg", "monitor": "c13", "shards": 16, "tiers": ("quick",)},
                    {"variant": "interp-rel", "monitor": "c13", "shards": 16, "tiers": ("thorough",)}],
-        "floors": {"quick": {"evaluations": 8_000_000, "overflows-expected": 10_000, "tac-glitch-increments": 1_000}, "thorough": {"evaluations": 20_000_000}},
+        "floors": {"quick": {"evaluations": 8_000_000, "overflows-expected": 10_000, "tac-glitch-increments": 1_000}, "thorough": {"evaluations": 15_000_000}},
         "exhaustive": {"quick": False, "thorough": False},
         "assumptions": ["accept-set: a DIV write while the selected divider bit is high (hardware counts an edge, the statement names only the TAC case): after it only DIV stays compared in that history (counted)"],
     },
@@ -242,7 +264,8 @@ CHECKS = {
                 "bits 1-6) rendered by VideoState over one frame from power-on until the VBlank request; the 160x144 visible buffer must equal a pure reference renderer. "
                 "distinct_nontrivial = distinct scenes",
         "phases": [{"variant": "interp-dbg", "monitor": "c15", "shards": 16, "tiers": ("quick",)},
-                   {"variant": "interp-rel", "monitor": "c15", "shards": 16, "tiers": ("thorough",)}],
+                   {"variant": "interp-rel", "monitor": "c15", "shards": 16, "tiers": ("thorough",)},
+                   miri_phase("c15", 640)],
         "floors": {"quick": {"evaluations": 600, "scenes-with-window-pixels": 100, "scenes-with-object-pixels": 150, "scenes-with-8x16-object-pixels": 60, "scenes-with-more-than-10-objects-on-a-line": 50},
                    "thorough": {"evaluations": 19_000}},
         "exhaustive": {"quick": False, "thorough": False},
@@ -265,7 +288,7 @@ CHECKS = {
         "level": "exploration",
         "rule": "cases = the complete transition relation: 256 button states x 4 selections x 20 actions (8 presses, 8 releases, 4 selection writes), on the Joypad device and through "
                 "IO (FF00 write/read-back, IF bit 4 collected by run_clock_cycles, a second collection must report nothing). distinct_nontrivial = distinct (buttons, selection, action)",
-        "phases": [{"variant": "interp-dbg", "monitor": "c17", "shards": 16}],
+        "phases": [{"variant": "interp-dbg", "monitor": "c17", "shards": 16}, miri_phase("c17", 256)],
         "floors": {"quick": {"evaluations": 40_960, "transitions-with-a-falling-line": 2900}, "thorough": {"evaluations": 40_960}},
         "exhaustive": {"quick": True, "thorough": True},
         "assumptions": [],
@@ -310,7 +333,7 @@ CHECKS = {
                 "out-of-range and malformed spellings (must be None); every letter-case pattern of every command word with whitespace decorations; random Unicode lines (must return); "
                 "random sequences of complete instructions (all 512 encodings, starts near 0xFFFF) through disassemble(): count, wrapping addresses, byte groups and lengths "
                 "vs the reference length table and decoder::decode, via the Display rendering. distinct_nontrivial = distinct units (address pages, words, line chunks, sequence chunks)",
-        "phases": [{"variant": "interp-dbg", "monitor": "c20", "shards": 16}],
+        "phases": [{"variant": "interp-dbg", "monitor": "c20", "shards": 16}, miri_phase("c20", 3000)],
         "floors": {"quick": {"evaluations": 1_000_000, "address-spellings-parsed": 700_000, "command-lines": 1_000, "unicode-lines": 150_000, "instruction-sequences-tiled": 30_000,
                              "malformed-or-out-of-range-rejected": 2_000},
                    "thorough": {"evaluations": 5_000_000}},
